@@ -21,6 +21,8 @@ def run(tier, seed):
     import contracts.emph as EM
     import contracts.linkc as LK
     deductive(rep, "C01", LK.FUNCS, "contracts.linkc", select=safety)
+    import contracts.rxrules as RXR
+    deductive(rep, "C01", RXR.FUNCS, "contracts.rxrules", select=safety)
     import contracts.fragjoin as FJ
     import contracts.inline2 as I2
     deductive(rep, "C01", I2.FUNCS, "contracts.inline2", select=safety)
